@@ -146,3 +146,30 @@ func WaitParked(done <-chan struct{}, marker string, watchdog, gap time.Duration
 	}
 	return Slow, ""
 }
+
+// Self returns the id of the calling goroutine.
+func Self() int {
+	buf := make([]byte, 64)
+	buf = buf[:runtime.Stack(buf, false)]
+	// "goroutine 123 [running]:"
+	id := 0
+	for _, c := range buf[len("goroutine "):] {
+		if c < '0' || c > '9' {
+			break
+		}
+		id = id*10 + int(c-'0')
+	}
+	return id
+}
+
+// ParkedIDs returns, for the goroutines carrying marker, id -> joined library frames of those currently parked inside the
+// library.
+func ParkedIDs(marker string) map[int]string {
+	out := map[int]string{}
+	for _, g := range Find(Snapshot(), marker) {
+		if lf := strings.Join(g.LibFrames(), "|"); lf != "" && IsParked(g.State) {
+			out[g.ID] = lf
+		}
+	}
+	return out
+}
